@@ -312,8 +312,9 @@ def oracle(ctx: Ctx, case, names, r, vid):
                     if not close(G[j + 1], nxt, scale, tol):
                         ctx.fail("autocovariance-propagation", case, tag + f"order {j + 1} is not [T; Z T] applied to order {j}")
                         break
-        ctx.nontriv(("lyap", ns, int(stable_y.sum()), int((~stable_xi).sum()), k, rho > 0.5))
+        key_lyap = (ns, int(stable_y.sum()), int((~stable_xi).sum()), rho > 0.5)
     else:
+        key_lyap = None
         ctx.count("oracle:square-form-not-applicable")
     # (4) acorr = acov / sqrt(d_i d_j), zero-variance guard; both call forms agree
     d = np.diag(acov[0])
@@ -325,8 +326,7 @@ def oracle(ctx: Ctx, case, names, r, vid):
         if not close(r["acorr"][j], want_corr, 1.0, 1e-9) or not close(r["acorr_from"][j], want_corr, 1.0, 1e-9):
             ctx.fail("acorr", case, tag + f"order {j}: get_acorr is not acov scaled by the order-0 standard deviations")
             break
-    if np.any((d <= 0) & ~np.isnan(d)):
-        ctx.nontriv(("zero-variance", nsel))
+    key_zero = bool(np.any((d <= 0) & ~np.isnan(d)))
     # (5) scaling all std by s scales every autocovariance by s^2
     s = case["factor"]
     for j in range(k + 1):
@@ -334,7 +334,7 @@ def oracle(ctx: Ctx, case, names, r, vid):
         if not close(r["acov_scaled"][j], s * s * acov[j], sc, 1e-9 / max(1e-3, (1 - min(rho, 0.999)) ** 2)):
             ctx.fail("rescale-stds-variants" if vid > 0 else "rescale-stds", case, tag + f"order {j}: after rescale_stds({s}) the autocovariance is not {s * s} times the original")
             break
-    ctx.nontriv(("acov", nsel, int(want_nan.sum()), k, int(sol.num_unit_roots), ny))
+    ctx.nontriv(("acov", nsel, int(want_nan.sum()), k, int(sol.num_unit_roots), ny, key_lyap, key_zero))
 
 
 # ---------------------------------------------------------------------------------------
@@ -413,7 +413,7 @@ def do_cases(ctx: Ctx, cases, with_model=True):
     impl = []
     lines, slots = [], []
     for ci, case in enumerate(cases):
-        ctx.evaluations += 1
+        ctx.evaluations += 2 if case.get("stds2") else 1
         try:
             with warnings.catch_warnings():
                 warnings.simplefilter("ignore")
@@ -460,9 +460,10 @@ def corpus_cases():
 def run(ctx: Ctx):
     ctx.rule = ("random small linear models built with Simultaneous.from_string: 1-3 stationary AR variables with lags 1-2 (optionally one lead), "
                 "0-2 random-walk / cumulated variables, optional variables depending on them, 0-2 measurement variables with or without measurement "
-                "shocks, std in {0, .5, 1, 2, 3}, order 0-3, 1-2 variants, rescale factor in {.5, 1.5, 2, 3}. distinct_nontrivial counts distinct "
-                "(number of variables, number of NaN variables, order, unit roots, measurement variables) classes, distinct Lyapunov classes "
-                "(stable states, stable observables, unit-root states, order, rho > 0.5) and zero-variance cases")
+                "shocks, std in {0, .5, 1, 2, 3}, order 0-3, 1-2 variants, rescale factor in {.5, 1.5, 2, 3}. evaluations counts (model, variant) pairs; "
+                "distinct_nontrivial counts distinct classes (number of variables, number of NaN variables, order, unit roots, measurement variables, "
+                "(stable states, stable observables, unit-root states, rho > 0.5) when the square-form equations applied, has-a-zero-variance) among "
+                "the pairs whose autocovariances were produced and passed the shape checks")
     do_cases(ctx, [p["case"] for p in corpus_cases() if isinstance(p.get("case"), dict)])
     do_cases(ctx, all_cases(ctx))
 
